@@ -129,6 +129,59 @@ theorem mac_tie (l : Line) (name v : Bytes) : genLine_MAC (G l) name v = liftG (
     simp only [h6, h6', if_false]
     exact copy_last l0 sNil
 
+/-- **LF** -/
+theorem lf_tie (l : Line) : genLine_LF (G l) = liftG (appendByte l cLF) := appendByte_tie l _
+
+/-- **Label** (`' '` then the text) -/
+theorem label_tie (l : Line) (name : Bytes) : genLine_Label (G l) name = liftG (label l name) := by
+  unfold genLine_Label label
+  rw [appendByte_tie]; apply liftG_bind; intro l1
+  exact copy_last l1 name
+
+/-- **Bytes** (head then the raw bytes) -/
+theorem bytes_tie (l : Line) (name v : Bytes) : genLine_Bytes (G l) name v = liftG (bytesF l name v) := by
+  unfold genLine_Bytes bytesF
+  apply head_step; intro l1
+  exact copy_last l1 v
+
+/-- **Bool** (head then "true" / "false") -/
+theorem bool_tie (l : Line) (name : Bytes) (v : Bool) : genLine_Bool (G l) name v = liftG (boolF l name v) := by
+  unfold genLine_Bool boolF
+  apply head_step; intro l1
+  cases v
+  · exact copy_last l1 sFalse
+  · exact copy_last l1 sTrue
+
+/-- **Uint8Hex** (`0x` and two `hexAscii` lookups) -/
+theorem uint8Hex_tie (l : Line) (name : Bytes) (v : UInt8) :
+    genLine_Uint8Hex (G l) name v = liftG (uint8Hex l name v) := by
+  unfold genLine_Uint8Hex uint8Hex hexAt
+  simp only [hexAscii_tie, idxI_natCast]
+  apply head_step; intro l1
+  rw [appendByte_tie]; apply liftG_bind; intro l2
+  rw [appendByte_tie]; apply liftG_bind; intro l3
+  apply val_step; intro t
+  rw [appendByte_tie]; apply liftG_bind; intro l4
+  apply val_step; intro t2
+  exact appendByte_tie l4 t2
+
+/-- **Uint16Hex** (`0x` and four `hexAscii` lookups) -/
+theorem uint16Hex_tie (l : Line) (name : Bytes) (v : UInt16) :
+    genLine_Uint16Hex (G l) name v = liftG (uint16Hex l name v) := by
+  unfold genLine_Uint16Hex uint16Hex hexAt16
+  simp only [hexAscii_tie, idxI_natCast]
+  apply head_step; intro l1
+  rw [appendByte_tie]; apply liftG_bind; intro l2
+  rw [appendByte_tie]; apply liftG_bind; intro l3
+  apply val_step; intro t
+  rw [appendByte_tie]; apply liftG_bind; intro l4
+  apply val_step; intro t2
+  rw [appendByte_tie]; apply liftG_bind; intro l5
+  apply val_step; intro t3
+  rw [appendByte_tie]; apply liftG_bind; intro l6
+  apply val_step; intro t4
+  exact appendByte_tie l6 t4
+
 /-- every method of `*fastlog.Line` is a candidate; these are the ones the translator expresses -/
 theorem translated_accounted : fastlogLoopsTranslated.map (·.1) =
     ["fastlog.(*Line).Bool", "fastlog.(*Line).ByteArray", "fastlog.(*Line).Bytes", "fastlog.(*Line).LF",
